@@ -174,6 +174,7 @@ type Ctx struct {
 	sigs       map[uint64]struct{}
 	start      time.Time
 	sampleGate map[string]int
+	classSeen  map[string]int
 }
 
 func NewCtx(prop, tier string, seed uint64, batch, nbatch int) *Ctx {
@@ -259,7 +260,21 @@ func (c *Ctx) Note(k, v string)        { c.R.Notes[k] = v }
 func (c *Ctx) Violate(key, caseID, what string, detail any) {
 	c.R.ViolationCount++
 	c.R.ViolationKeys[key]++
-	if c.R.ViolationKeys[key] > 3 || len(c.R.Violations) >= maxRecordedViolations {
+	// the full record (message, detail) is kept for the first few violations of
+	// a key; once the list is long, still for the first two of every CLASS of
+	// keys (the key without its last, input-specific component), so that a
+	// flood of one class (e.g. a known finding with hundreds of inputs) cannot
+	// crowd out the witness of another
+	class := key
+	if i := strings.LastIndex(key, "|"); i > 0 {
+		class = key[:i]
+	}
+	if c.classSeen == nil {
+		c.classSeen = map[string]int{}
+	}
+	c.classSeen[class]++
+	full := len(c.R.Violations) >= maxRecordedViolations
+	if c.R.ViolationKeys[key] > 3 || (full && (c.classSeen[class] > 2 || len(c.R.Violations) >= 4*maxRecordedViolations)) {
 		return
 	}
 	c.R.Violations = append(c.R.Violations, Violation{Key: key, What: what, Detail: detail, CaseID: caseID})
